@@ -8,6 +8,7 @@ pub mod c13;
 pub mod c15;
 pub mod c17;
 pub mod c21;
+pub mod c22;
 pub mod c23;
 pub mod c35;
 pub mod c39;
@@ -30,6 +31,7 @@ pub fn get(id: &str) -> Option<&'static dyn Property> {
         "C15" => Some(&c15::C15),
         "C17" => Some(&c17::C17),
         "C21" => Some(&c21::C21),
+        "C22" => Some(&c22::C22),
         "C23" => Some(&c23::C23),
         "C35" => Some(&c35::C35),
         "C39" => Some(&c39::C39),
@@ -37,4 +39,4 @@ pub fn get(id: &str) -> Option<&'static dyn Property> {
     }
 }
 
-pub const ALL_IDS: &[&str] = &["C01", "C02", "C03", "C07", "C08", "C09", "C10", "C11", "C12", "C13", "C15", "C17", "C21", "C23", "C35", "C39"];
+pub const ALL_IDS: &[&str] = &["C01", "C02", "C03", "C07", "C08", "C09", "C10", "C11", "C12", "C13", "C15", "C17", "C21", "C22", "C23", "C35", "C39"];
